@@ -1,1 +1,165 @@
-import SigModel.Spec.Hub
+/-
+C06 — A dropped connection can be resumed without loss; bye and expiry are final.
+
+Local theorems about the model's queueing and resume code, plus corollaries of
+the invariant.  The global statement ("the concatenation of what the old
+connection saw with what is flushed on resume equals what a connected session
+would have received") follows from `C06_queue_or_write` (every message handed to
+a session goes through the same filter and is either written or queued, in
+order, queued chat-refresh notices merged) and `C06_resume_flushes_in_order`;
+it is not stated as one theorem over two runs (partial, see DESIGN.md).
+-/
+import SigModel.Props.C19
+
+namespace SigModel.Hub
+
+/-- **Queue or write.** Handing message `m` to a (non-virtual) session runs the same filter whether or
+not a connection is attached; the filtered message is then written to the connection, or appended to
+the queue — except that a second chat-refresh notice is not queued again. -/
+theorem C06_queue_or_write (a : Acc) (s : Nat) (m : Msg) (x : Sess) (hx : a.h.sess s = some x) (hk : x.kind ≠ .virtual) :
+    match (filterMessage x m).2 with
+    | none => (sendTo a s m).outs = a.outs ∧ ((sendTo a s m).h.sess s).map (·.pending) = some x.pending
+    | some m1 =>
+      match x.conn with
+      | some c => (sendTo a s m).outs = a.outs ++ [⟨c, m1, some x.backend⟩] ∧
+                  ((sendTo a s m).h.sess s).map (·.pending) = some x.pending
+      | none => (sendTo a s m).outs = a.outs ∧
+                ((sendTo a s m).h.sess s).map (·.pending) =
+                  some (if isChatRefresh m1 && x.pending.any isChatRefresh then x.pending else x.pending ++ [m1]) := by
+  unfold sendTo
+  simp only [target_nonvirtual hx hk, hx]
+  have hpend : (filterMessage x m).1.pending = x.pending := by
+    cases m <;> simp only [filterMessage] <;> try rfl
+    split <;> rfl
+  have hconn : (filterMessage x m).1.conn = x.conn := by
+    cases m <;> simp only [filterMessage] <;> try rfl
+    split <;> rfl
+  have hbk : (filterMessage x m).1.backend = x.backend := by
+    cases m <;> simp only [filterMessage] <;> try rfl
+    split <;> rfl
+  generalize (filterMessage x m).1 = x1 at hpend hconn hbk
+  cases (filterMessage x m).2 with
+  | none => simp [hubf, hpend]
+  | some m1 =>
+    simp only []
+    rw [← hconn]
+    cases hc : x1.conn with
+    | some c => simp [hubf, hpend, hbk]
+    | none =>
+      simp only []
+      rw [hpend]
+      split <;> simp [hubf, hpend, *]
+
+theorem flushPending_outs (s : Nat) (y : Sess) (c : Nat) (hc : y.conn = some c) :
+    ∀ (l : List Msg) (a : Acc), a.h.sess s = some y →
+      (flushPending a s l).outs = a.outs ++ l.map (fun m => (⟨c, m, some y.backend⟩ : Out)) := by
+  intro l
+  induction l with
+  | nil => intro a _; simp [flushPending]
+  | cons m l ih =>
+    intro a hy
+    have step : flushPending a s (m :: l) = flushPending
+        { a with outs := a.outs ++ [⟨c, m, some y.backend⟩], closes := if isClosing y m then a.closes ++ [s] else a.closes } s l := by
+      unfold flushPending
+      simp only [List.foldl_cons, hy, hc]
+    have := ih { a with outs := a.outs ++ [⟨c, m, some y.backend⟩], closes := if isClosing y m then a.closes ++ [s] else a.closes } hy
+    rw [step, this]
+    simp
+
+/-- The record of a session right after it was attached to connection `c`. -/
+def resumed (x : Sess) (c : Nat) : Sess := { x with conn := some c, pending := [] }
+
+theorem resumeAcc_sess (a : Acc) (c s : Nat) (x : Sess) : (resumeAcc a c s x).h.sess s = some (resumed x c) := by
+  unfold resumeAcc resumeTables resumed; cases x.conn <;> simp [hubf]
+
+/-- **Resume flushes in order.** A resume with the id of live session `s` on an open connection without
+session attaches the connection, answers with the same session id (a previous connection is told
+`session_resumed` first), then hands over everything that was queued — in queue order, nothing
+dropped, nothing duplicated; after the queue at most one participants list follows.  The session
+keeps its room and its queue is empty. -/
+theorem C06_resume_flushes_in_order (a : Acc) (c s : Nat) (x : Sess)
+    (hopen : a.h.connOpen c = true) (hfree : a.h.connSess c = none)
+    (hx : a.h.sess s = some x) (hk : x.kind ≠ .virtual) :
+    ∃ tail, (processResume a c (some s)).outs =
+        (resumeAcc a c s x).outs ++ x.pending.map (fun m => (⟨c, m, some x.backend⟩ : Out)) ++ tail ∧
+      (∀ o, o ∈ tail → ∃ us, o.msg = .partUsers us) ∧
+      ∃ x', (processResume a c (some s)).h.sess s = some x' ∧ x'.conn = some c ∧ x'.room = x.room ∧ x'.pending = [] := by
+  have hrs := resumeAcc_sess a c s x
+  have hfl := flushPending_outs s (resumed x c) c rfl x.pending (resumeAcc a c s x) hrs
+  have hfh := flushPending_h s x.pending (resumeAcc a c s x)
+  unfold processResume
+  simp only [hopen, hfree, Bool.not_true, Option.isSome_none, Bool.or_self, Bool.false_eq_true, if_false, hx, hk]
+  generalize flushPending (resumeAcc a c s x) s x.pending = F at hfl hfh
+  have hFs : F.h.sess s = some (resumed x c) := by rw [hfh]; exact hrs
+  have hbk : (resumed x c).backend = x.backend := rfl
+  rw [hbk] at hfl
+  by_cases hn : needsParticipants x.pending = true
+  · simp only [hn, if_true]
+    unfold notifyResumed
+    simp only [hFs]
+    have base : ∃ x', F.h.sess s = some x' ∧ x'.conn = some c ∧ x'.room = x.room ∧ x'.pending = [] :=
+      ⟨_, hFs, rfl, rfl, rfl⟩
+    cases hr : (resumed x c).room with
+    | none => exact ⟨[], by simp [hfl], by simp, base⟩
+    | some r =>
+      simp only []
+      cases hrm : F.h.rooms (resumed x c).backend r with
+      | none => exact ⟨[], by simp [hfl], by simp, base⟩
+      | some rm =>
+        simp only []
+        by_cases he : addInternalSessions F.h rm rm.users = []
+        · simp only [he, if_true]; exact ⟨[], by simp [hfl], by simp, base⟩
+        · simp only [he, if_false]
+          have hq := C06_queue_or_write F s (.partUsers (addInternalSessions F.h rm rm.users)) _ hFs hk
+          simp only [filterMessage, resumed] at hq
+          obtain ⟨q1, q2⟩ := hq
+          refine ⟨[⟨c, .partUsers (addInternalSessions F.h rm rm.users), some x.backend⟩], by rw [q1, hfl], ?_, ?_⟩
+          · intro o ho; simp at ho; subst ho; exact ⟨_, rfl⟩
+          · have hcore := (sendTo_core F s (.partUsers (addInternalSessions F.h rm rm.users))).sess_fields s
+            simp only [hFs] at hcore
+            rcases hcore with ⟨h0, _⟩ | ⟨y, y', hy, hy', e1, e2, e3, e4, e5, e6, e7, e8, e9⟩
+            · cases h0
+            · cases hy
+              refine ⟨y', hy', e6, by rw [e4]; rfl, ?_⟩
+              rw [hy'] at q2; simpa using q2
+  · simp only [hn, Bool.false_eq_true, if_false]
+    exact ⟨[], by simp [hfl], by simp, _, hFs, rfl, rfl, rfl⟩
+
+/-- **Only the private id resumes.** An id that does not decode as a private id of this server — the
+public id included (C15: the two kinds are disjoint) — is refused with `no_such_session`; nothing
+changes. -/
+theorem C06_unknown_id_refused (a : Acc) (c : Nat) (hopen : a.h.connOpen c = true) (hfree : a.h.connSess c = none) :
+    processResume a c none = { a with outs := a.outs ++ [⟨c, .error "no_such_session", none⟩] } := by
+  unfold processResume
+  simp [hopen, hfree]
+
+/-- **Bye and expiry are final.** Once the session is gone, its id is refused … -/
+theorem C06_ended_refused (a : Acc) (c s : Nat) (hopen : a.h.connOpen c = true) (hfree : a.h.connSess c = none)
+    (hs : a.h.sess s = none) :
+    processResume a c (some s) = { a with outs := a.outs ++ [⟨c, .error "no_such_session", none⟩] } := by
+  unfold processResume
+  simp [hopen, hfree, hs]
+
+/-- … and bye ends it: after `bye` on its connection the session does not exist (and by
+`C07_no_residue` it is in no room). The same holds for every session closed by housekeeping
+(`closeSession_sub`). -/
+theorem C06_bye_ends_session (a : Acc) (c s : Nat) (hi : Inv a.h) (hcs : a.h.connSess c = some s) :
+    (processBye a c).h.sess s = none := by
+  unfold processBye
+  simp only [hcs]
+  refine (closeSession_sub _ s ?_).2
+  exact processDisconnect_inv _ c hi
+
+private def demo : List Op :=
+  [.connect 1, .connect 2, .connect 3, .hello 1 0 .client "alice" false false, .hello 2 0 .client "bob" false false,
+   .join 1 "room" "n1" (.ok none ""), .join 2 "room" "n2" (.ok none ""), .disconnect 2,
+   .message 1 false .room "m1", .message 1 false (.session (some 2)) "m2", .resume 3 (some 2), .resume 1 none]
+
+/-- Non-vacuity: two messages arrive while bob is disconnected; the resume on a new connection gets
+the same session id and both messages in order. -/
+example : ((run {} demo).2.drop 10).map (fun outs => outs.map (fun o => (o.conn, o.msg))) =
+    [[(3, .hello 2 "bob"), (3, .message false ⟨.room, 1, "alice"⟩ none "m1"),
+      (3, .message false ⟨.session, 1, "alice"⟩ none "m2")], []] := by
+  decide +kernel
+
+end SigModel.Hub
